@@ -43,6 +43,11 @@ inline bool do_update(World& w, Outcome& o, UpdateOutcome& up) {
                " on a closed registry");
         return false;
     }
+    auto msg = w.check_arrays();
+    if (!msg.empty()) {
+        o.fail(msg);
+        return false;
+    }
     return true;
 }
 
